@@ -8,6 +8,48 @@ from lib import vfmt
 
 # ------------------------------------------------------------------ script generation
 def gen_script(rng, tier, focus=None):
+    if focus == 'slowpeer':
+        # a peer that stops reading: the write of one call blocks, later calls wait behind it (mux: in the send queue;
+        # thrift: for the pooled connection), deadlines pass meanwhile, then the peer reads again
+        stack = rng.choice(['mux', 'mux', 'thrift'])
+        steps = [['srv', 0, rng.choice(['echo', 'echo', 'delay']), 5], ['adv', 50]]
+        if rng.random() < 0.5:
+            steps += [['call', 107], ['adv', 20]]
+        steps.append(['stall', 0])
+        for _ in range(rng.choice([2, 3, 5])):
+            steps.append(['call', rng.choice([3, 5, 10]) * 10 + rng.randrange(1, 10)])
+            if rng.random() < 0.3:
+                steps.append(['adv', rng.choice([1, 11, 31])])
+        steps += [['adv', rng.choice([40, 60, 120])], ['unstall', 0], ['adv', 50]]
+        if rng.random() < 0.5:
+            steps += [['call', 107], ['adv', 200]]
+        steps.append(['adv', 400])
+        return {'stack': stack, 'neps': 1, 'open_delay': 0, 'pool': [1, 1, 100] if stack == 'thrift' else None,
+                'steps': steps, 'aged': False}
+    if focus == 'resume':
+        # C09 on the assembled client with one endpoint: the connection is lost in one of several ways while the
+        # endpoint refuses new connections, the endpoint comes back, and the client is left without traffic for longer
+        # than the maximum retry interval: it must have tried again by then
+        stack = rng.choice(['thrift', 'thrift', 'mux'])
+        how = rng.choice(['timeout', 'timeout', 'kill', 'refused-at-open'])
+        steps = [['srv', 0, 'echo', 5]]
+        if how == 'refused-at-open':
+            steps += [['reach', 0, False], ['adv', 50], ['call', 107], ['adv', 300]]
+        else:
+            steps += [['adv', 50], ['call', 107], ['adv', 20]]
+            if how == 'timeout':
+                # the server goes silent; the endpoint starts refusing just before the call's deadline passes, so the
+                # reconnect the serial transport makes after a timeout is refused
+                steps += [['srv', 0, 'hold', 5], ['call', 103], ['adv', rng.choice([50, 95])], ['reach', 0, False],
+                          ['adv', 60]]
+            else:
+                steps += [['reach', 0, False], ['kill', 0], ['call', 107], ['adv', 200]]
+        steps += [['adv', rng.choice([1000, 7000, 30000])], ['srv', 0, 'echo', 5], ['reach', 0, True]]
+        steps += [['adv', 30000], ['adv', 32000], ['adv', 5000]]
+        if rng.random() < 0.5:
+            steps += [['call', 107], ['adv', 200]]
+        return {'stack': stack, 'neps': 1, 'open_delay': 0, 'pool': None, 'steps': steps, 'aged': False,
+                'after_close': 'up'}
     if focus == 'close':
         # C09's last clause on the assembled client: endpoints failing and recovering around traffic, the client closed
         # in the middle of it (also before it has finished opening), then left alone
@@ -192,6 +234,7 @@ def run_script(script, comp='e2e'):
             self.ep = ep
             self.mode, self.delay = 'echo', 5
             self.held = []          # (conn, kind, tag, payload, cid)
+            self.stalled = None     # an Event while the peer does not read what the client writes
             self.net = fakenet.NET.server('h%d' % ep, 9000 + ep)
             self.net.on_connect = self.on_connect
 
@@ -209,6 +252,7 @@ def run_script(script, comp='e2e'):
             conn.buf = bytearray()
             conn.tagmap = {}
             conn.on_write = self.on_write
+            conn.before_write = self.before_write
             cidn = self.conn_id(conn)
             orig_close = conn.close
 
@@ -240,9 +284,18 @@ def run_script(script, comp='e2e'):
             Hello.Processor(H()).process(TBinaryProtocol(itr), TBinaryProtocol(otr))
             return otr.getvalue()
 
+        def before_write(self, conn):
+            # a frame counts as written from the moment its write call is issued (as in the component harnesses);
+            # while the peer is stalled the call does not return
+            conn.issue_us = now()
+            while self.stalled is not None:
+                tags.add('write-blocked')
+                self.stalled.wait()
+
         def on_write(self, conn, data):
             conn.buf.extend(data)
             cidn = self.conn_id(conn)
+            now = lambda: getattr(conn, 'issue_us', None) or rt.now_us()      # noqa: write-issue time of this frame
             while len(conn.buf) >= 4:
                 sz, = unpack('!i', bytes(conn.buf[:4]))
                 if len(conn.buf) < 4 + sz:
@@ -476,6 +529,22 @@ def run_script(script, comp='e2e'):
                 if st[1] < neps:
                     srvs[st[1]].net.reachable = st[2]
                     tags.add('unreachable' if not st[2] else 'reachable-again')
+                    if neps == 1:
+                        # single endpoint: nothing may retire it, so C09's "resumes within one maximum retry
+                        # interval" is decidable on the log (the interval is read from the real builder defaults)
+                        from scales.resurrector import ResurrectorSink
+                        mw = ResurrectorSink.Builder().sink_properties.max_wait_interval
+                        ev('reach', st[1], bool(st[2]), now(), int(mw * 1000000))
+            elif kind == 'stall':
+                if st[1] < neps and srvs[st[1]].stalled is None:
+                    from gevent.event import Event as _Ev
+                    srvs[st[1]].stalled = _Ev()
+                    tags.add('peer-stalled')
+            elif kind == 'unstall':
+                if st[1] < neps and srvs[st[1]].stalled is not None:
+                    e, srvs[st[1]].stalled = srvs[st[1]].stalled, None
+                    e.set()
+                    rt.drain()
             elif kind == 'kill':
                 if st[1] < neps:
                     for c in list(srvs[st[1]].net.conns):
